@@ -136,11 +136,11 @@ def gen_direct_tokens(rng):
             pre = rng.choice(['\n', '\n', '\r\n', '\n  \n', '\n\n', '\n\t\n'])
             toks.append((NL, pre + ws))
         elif r < 0.5:
-            toks.append((rng.choice(OPEN), '('))
+            toks.append((rng.choice(OPEN + ('LBRACE',)), '('))
             depth += 1
         elif r < 0.62:
             if depth > 0 or rng.random() < 0.08:
-                toks.append((rng.choice(CLOSE), ')'))
+                toks.append((rng.choice(CLOSE + ('RBRACE',)), ')'))
                 depth -= 1
         else:
             toks.append(('NAME', rng.choice(['a', 'bb', 'c'])))
@@ -252,7 +252,8 @@ class C18(Check):
                 streams.append({'text': gen_tree_text(rng), 'end': end, 'k': rng.randint(0, 20)})
             else:
                 streams.append({'text': gen_python(rng), 'end': end, 'k': rng.randint(0, 30)})
-        return {'driver': driver, 'lexer': rng.choice(['contextual', 'basic']), 'streams': streams, 'tab_len': rng.choice([8, 8, 4, 1])}
+        return {'driver': driver, 'lexer': rng.choice(['contextual', 'basic']), 'streams': streams, 'tab_len': rng.choice([8, 8, 4, 1]),
+                'indenter_class': rng.choice([None, None, 'brace', 'paren'])}
 
     # ------------------------------------------------------------------ execution
     def _raw(self, plain, text):
@@ -288,8 +289,12 @@ class C18(Check):
         if driver == 'direct':
             from sim import userobjs
             tl = plan.get('tab_len', 8)
-            ind = {8: userobjs.TreeIndenter, 4: userobjs.TreeIndenter4, 1: userobjs.TreeIndenter1}[tl]()
-            names = dict(nl=NL, ind=IND, ded=DED, opens=OPEN, closes=CLOSE, tab_len=tl)
+            cls = {'brace': userobjs.BraceIndenter, 'paren': userobjs.ParenOnlyIndenter}.get(plan.get('indenter_class')) or \
+                {8: userobjs.TreeIndenter, 4: userobjs.TreeIndenter4, 1: userobjs.TreeIndenter1}[tl]
+            # several Indenter subclasses with DIFFERENT bracket vocabularies and tab widths live in this process (PythonIndenter is
+            # created at set-up): each must go by its own class attributes
+            ind = cls()
+            names = dict(nl=NL, ind=IND, ded=DED, opens=tuple(cls.OPEN_PAREN_types), closes=tuple(cls.CLOSE_PAREN_types), tab_len=cls.tab_len)
         elif driver == 'lark':
             ind = W.make_postlex('tree')
             p = Lark(W.G_IND, parser='lalr', lexer=plan['lexer'], postlex=ind)
